@@ -65,7 +65,7 @@ Proof.
   apply Ascii.eqb_eq in E. subst c. discriminate.
 Qed.
 
-Lemma digit_not_alpha c : is_digit c = true -> is_alpha c = false /\ is_blank c = false.
+Lemma digit_not_alpha c : (is_digit c || Ascii.eqb c ".")%bool = true -> is_alpha c = false /\ is_blank c = false.
 Proof.
   destruct c as [b0 b1 b2 b3 b4 b5 b6 b7].
   destruct b0, b1, b2, b3, b4, b5, b6, b7; cbn; intros H; try discriminate; split; reflexivity.
@@ -84,6 +84,16 @@ Proof.
   rewrite lex_ident_run by assumption. cbn [append].
   unfold ident_token.
   apply negb_true_iff in Hk1. apply negb_true_iff in Hk2. rewrite Hk1, Hk2. reflexivity.
+Qed.
+
+Lemma lex_word c r rest :
+  is_alpha c = true -> all_chars plain_ident_char r = true -> brk_rest rest ->
+  lex_go LIdle (String c r ++ rest) = oapp (Some [ident_token (String c r)]) (lex_go LIdle rest).
+Proof.
+  intros Ha Hs Hr.
+  cbn [append GramDefs.lex_go continues flush]. rewrite oapp_nil.
+  rewrite (alpha_not_blank _ Ha), Ha.
+  rewrite lex_ident_run by assumption. reflexivity.
 Qed.
 
 Lemma brk_not_num c ae : brk c = true -> ae = false ->
@@ -144,3 +154,489 @@ Definition strings_ok (L : lang) (p : profile) : Prop :=
   /\ (forall t f, fun1_name p t = Some f -> var_ok f = true)
   /\ (forall t f, fun2_name p t = Some f -> var_ok f = true).
 
+Lemma strings_C : strings_ok LC profile_C.
+Proof.
+  unfold strings_ok. repeat match goal with |- _ /\ _ => split end;
+    try (vm_compute; reflexivity);
+    intros t f H; destruct t; vm_compute in H; try discriminate; injection H as <-; vm_compute; reflexivity.
+Qed.
+Lemma strings_Py : strings_ok LPy profile_Py.
+Proof.
+  unfold strings_ok. repeat match goal with |- _ /\ _ => split end;
+    try (vm_compute; reflexivity);
+    intros t f H; destruct t; vm_compute in H; try discriminate; injection H as <-; vm_compute; reflexivity.
+Qed.
+
+(** ** pieces of generated text *)
+
+Definition head_ok (s : string) : bool :=
+  match s with
+  | String c _ => is_alpha c || is_digit c || Ascii.eqb c "." || Ascii.eqb c "-" || Ascii.eqb c "(" || Ascii.eqb c "!"
+  | EmptyString => false
+  end.
+Definition hd_is (c : ascii) (s : string) : bool :=
+  match s with String d _ => Ascii.eqb d c | EmptyString => false end.
+(* no '[' : the C conditional template is searched for "[IF_STATEMENT]" after the condition was inserted *)
+Definition nb (s : string) : bool := all_chars (fun c => negb (Ascii.eqb c "[")) s.
+
+Lemma nb_app a b : nb (a ++ b) = (nb a && nb b)%bool.
+Proof. unfold nb. induction a; cbn; [reflexivity|]. rewrite IHa. rewrite andb_assoc. reflexivity. Qed.
+
+Lemma all_chars_impl (f g : ascii -> bool) s :
+  (forall c, f c = true -> g c = true) -> all_chars f s = true -> all_chars g s = true.
+Proof.
+  intros Hfg. induction s; cbn; [reflexivity|]. intros H. apply andb_prop in H. destruct H as [H1 H2].
+  rewrite (Hfg _ H1), (IHs H2). reflexivity.
+Qed.
+
+Lemma plain_not_lbr c : (is_alpha c || is_digit c)%bool = true -> negb (Ascii.eqb c "[") = true.
+Proof.
+  destruct c as [b0 b1 b2 b3 b4 b5 b6 b7].
+  destruct b0, b1, b2, b3, b4, b5, b6, b7; cbn; intros H; try discriminate; reflexivity.
+Qed.
+
+Lemma var_ok_nb f : var_ok f = true -> nb f = true /\ head_ok f = true.
+Proof.
+  unfold var_ok. destruct f as [|c r]; [discriminate|]. intros H.
+  apply andb_prop in H. destruct H as [H _]. apply andb_prop in H. destruct H as [H _].
+  apply andb_prop in H. destruct H as [Ha Hs]. split.
+  - unfold nb. cbn [all_chars]. rewrite (plain_not_lbr c) by (rewrite Ha; reflexivity). cbn.
+    eapply all_chars_impl; [|exact Hs]. intros d Hd. apply plain_not_lbr. exact Hd.
+  - cbn. rewrite Ha. reflexivity.
+Qed.
+
+Lemma numchar_not_lbr c ae :
+  (is_digit c || Ascii.eqb c "." || is_alpha c || (ae && (Ascii.eqb c "+" || Ascii.eqb c "-")))%bool = true ->
+  negb (Ascii.eqb c "[") = true.
+Proof.
+  destruct c as [b0 b1 b2 b3 b4 b5 b6 b7].
+  destruct ae, b0, b1, b2, b3, b4, b5, b6, b7; cbn; intros H; try discriminate; reflexivity.
+Qed.
+
+Lemma num_chars_nb r : forall ae, num_chars_ok ae r = true -> nb r = true.
+Proof.
+  induction r as [|c r IH]; intros ae H; [reflexivity|].
+  cbn [num_chars_ok] in H. apply andb_prop in H. destruct H as [H1 H2].
+  unfold nb. cbn [all_chars]. rewrite (numchar_not_lbr _ _ H1). cbn. apply (IH _ H2).
+Qed.
+
+Lemma num_body_nb s : num_body_ok s = true -> nb s = true /\ head_ok s = true.
+Proof.
+  unfold num_body_ok. destruct s as [|c r]; [discriminate|]. intros H.
+  apply andb_prop in H. destruct H as [H _]. apply andb_prop in H. destruct H as [Hd Hn]. split.
+  - unfold nb. cbn [all_chars]. rewrite (numchar_not_lbr c false) by (rewrite orb_false_r; destruct (is_digit c), (Ascii.eqb c "."); cbn in *; auto; discriminate).
+    cbn. apply (num_chars_nb _ _ Hn).
+  - cbn. destruct (is_digit c), (Ascii.eqb c "."), (is_alpha c); cbn in *; auto; discriminate.
+Qed.
+
+Section LXP.
+Variable L : lang.
+Notation lex_go := (lex_go L).
+
+(* the text [s] lexes to [ts]; cl = the text is closed (ends with ')'), so nothing is required of what follows *)
+Definition LXP (cl : bool) (s : string) (ts : list token) : Prop :=
+  head_ok s = true /\ nb s = true /\
+  forall rest, (cl = true \/ brk_rest rest) -> lex_go LIdle (s ++ rest) = oapp (Some ts) (lex_go LIdle rest).
+
+Lemma lxp_open cl s ts : LXP cl s ts -> LXP false s ts.
+Proof.
+  intros (H1 & H2 & H3). split; [exact H1|split; [exact H2|]]. intros rest [H|H]; [discriminate|].
+  apply H3. right. exact H.
+Qed.
+
+Lemma lxp_ident f : var_ok f = true -> LXP false f [TId f].
+Proof.
+  intros H. destruct (var_ok_nb _ H) as [Hn Hh]. split; [exact Hh|split; [exact Hn|]].
+  intros rest [Hc|Hr]; [discriminate|]. apply lex_ident; assumption.
+Qed.
+
+Lemma lxp_num s : num_body_ok s = true -> LXP false s [TNum s].
+Proof.
+  intros H. destruct (num_body_nb _ H) as [Hn Hh]. split; [exact Hh|split; [exact Hn|]].
+  intros rest [Hc|Hr]; [discriminate|]. apply lex_num; assumption.
+Qed.
+
+(* one step of the lexer from the idle state, with the recursive calls folded (the if-chain of GramDefs.lex_go) *)
+Definition idle_step (c : ascii) (s' : string) : option (list token) :=
+          (if is_blank c then GramDefs.lex_go L LIdle s'
+           else if is_alpha c then GramDefs.lex_go L (LIdent (String c EmptyString)) s'
+           else if is_digit c || Ascii.eqb c "." then GramDefs.lex_go L (LNum (String c EmptyString) false) s'
+           else if Ascii.eqb c "(" then ocons TLp (GramDefs.lex_go L LIdle s')
+           else if Ascii.eqb c ")" then ocons TRp (GramDefs.lex_go L LIdle s')
+           else if Ascii.eqb c "," then ocons TComma (GramDefs.lex_go L LIdle s')
+           else if Ascii.eqb c "*" then ocons TStar (GramDefs.lex_go L LIdle s')
+           else if Ascii.eqb c "/" then ocons TSlash (GramDefs.lex_go L LIdle s')
+           else if Ascii.eqb c ":" then ocons TColon (GramDefs.lex_go L LIdle s')
+           else if Ascii.eqb c "?" then (if is_C L then ocons TQuest (GramDefs.lex_go L LIdle s') else None)
+           else if Ascii.eqb c "+" then
+                  match s' with
+                  | String d s'' => if is_C L && Ascii.eqb d "+" then ocons TPlusPlus (GramDefs.lex_go L LIdle s'')
+                                    else ocons TPlus (GramDefs.lex_go L LIdle s')
+                  | EmptyString => ocons TPlus (GramDefs.lex_go L LIdle s')
+                  end
+           else if Ascii.eqb c "-" then
+                  match s' with
+                  | String d s'' => if is_C L && Ascii.eqb d "-" then ocons TMinusMinus (GramDefs.lex_go L LIdle s'')
+                                    else ocons TMinus (GramDefs.lex_go L LIdle s')
+                  | EmptyString => ocons TMinus (GramDefs.lex_go L LIdle s')
+                  end
+           else if Ascii.eqb c "<" then
+                  match s' with
+                  | String d s'' => if Ascii.eqb d "=" then ocons TLe (GramDefs.lex_go L LIdle s'')
+                                    else ocons TLt (GramDefs.lex_go L LIdle s')
+                  | EmptyString => ocons TLt (GramDefs.lex_go L LIdle s')
+                  end
+           else if Ascii.eqb c ">" then
+                  match s' with
+                  | String d s'' => if Ascii.eqb d "=" then ocons TGe (GramDefs.lex_go L LIdle s'')
+                                    else ocons TGt (GramDefs.lex_go L LIdle s')
+                  | EmptyString => ocons TGt (GramDefs.lex_go L LIdle s')
+                  end
+           else if Ascii.eqb c "=" then
+                  match s' with
+                  | String d s'' => if Ascii.eqb d "=" then ocons TEqEq (GramDefs.lex_go L LIdle s'')
+                                    else ocons TAssign (GramDefs.lex_go L LIdle s')
+                  | EmptyString => ocons TAssign (GramDefs.lex_go L LIdle s')
+                  end
+           else if Ascii.eqb c "!" then
+                  match s' with
+                  | String d s'' => if Ascii.eqb d "=" then ocons TNe (GramDefs.lex_go L LIdle s'')
+                                    else if is_C L then ocons TBang (GramDefs.lex_go L LIdle s') else None
+                  | EmptyString => if is_C L then ocons TBang (GramDefs.lex_go L LIdle s') else None
+                  end
+           else if Ascii.eqb c "&" then
+                  match s' with
+                  | String d s'' => if is_C L && Ascii.eqb d "&" then ocons TAndAnd (GramDefs.lex_go L LIdle s'') else None
+                  | EmptyString => None
+                  end
+           else if Ascii.eqb c "|" then
+                  match s' with
+                  | String d s'' => if is_C L && Ascii.eqb d "|" then ocons TOrOr (GramDefs.lex_go L LIdle s'') else None
+                  | EmptyString => None
+                  end
+           else None).
+
+Lemma lex_idle c s' : lex_go LIdle (String c s') = idle_step c s'.
+Proof. cbn [GramDefs.lex_go continues flush]. rewrite oapp_nil. reflexivity. Qed.
+
+Ltac lexstep := cbn [append GramDefs.lex_go continues flush]; rewrite oapp_nil.
+
+Lemma lex_lp X : lex_go LIdle ("(" ++ X) = ocons TLp (lex_go LIdle X).
+Proof. lexstep. reflexivity. Qed.
+Lemma lex_rp X : lex_go LIdle (")" ++ X) = ocons TRp (lex_go LIdle X).
+Proof. lexstep. reflexivity. Qed.
+Lemma lex_blank X : lex_go LIdle (String " " X) = lex_go LIdle X.
+Proof. lexstep. reflexivity. Qed.
+Lemma lex_comma1 X : lex_go LIdle (String "," X) = ocons TComma (lex_go LIdle X).
+Proof. lexstep. reflexivity. Qed.
+Lemma lex_comma X : lex_go LIdle (", " ++ X) = ocons TComma (lex_go LIdle X).
+Proof. cbn [append]. rewrite lex_comma1, lex_blank. reflexivity. Qed.
+
+Lemma lxp_paren s ts : LXP false s ts -> LXP true ("(" ++ s ++ ")") (TLp :: ts ++ [TRp]).
+Proof.
+  intros (H1 & H2 & H3). split; [reflexivity|split].
+  - rewrite !nb_app, H2. reflexivity.
+  - intros rest _. rewrite !sapp_assoc. rewrite lex_lp. rewrite H3 by (right; reflexivity).
+    rewrite lex_rp. rewrite !ocons_oapp, !oapp_assoc. reflexivity.
+Qed.
+
+Lemma lxp_wrap b s ts : LXP false s ts -> LXP b (wrap b s) (wrapt b ts).
+Proof. intros H. destruct b; cbn [wrap wrapt]; [apply lxp_paren; exact H|exact H]. Qed.
+
+Lemma lxp_call1 f s ts : var_ok f = true -> LXP false s ts -> LXP true (f ++ "(" ++ s ++ ")") (call1t f ts).
+Proof.
+  intros Hf (H1 & H2 & H3). destruct (var_ok_nb _ Hf) as [Hn Hh]. split; [|split].
+  - destruct f; [discriminate|exact Hh].
+  - rewrite !nb_app, Hn, H2. reflexivity.
+  - intros rest _. rewrite !sapp_assoc. rewrite lex_ident by (try assumption; reflexivity).
+    rewrite lex_lp. rewrite H3 by (right; reflexivity). rewrite lex_rp.
+    unfold call1t. rewrite !ocons_oapp, !oapp_assoc. reflexivity.
+Qed.
+
+Lemma lxp_call2 f s1 ts1 s2 ts2 :
+  var_ok f = true -> LXP false s1 ts1 -> LXP false s2 ts2 ->
+  LXP true (f ++ "(" ++ s1 ++ ", " ++ s2 ++ ")") (call2t f ts1 ts2).
+Proof.
+  intros Hf (A1 & A2 & A3) (B1 & B2 & B3). destruct (var_ok_nb _ Hf) as [Hn Hh]. split; [|split].
+  - destruct f; [discriminate|exact Hh].
+  - rewrite !nb_app, Hn, A2, B2. reflexivity.
+  - intros rest _. rewrite !sapp_assoc. rewrite lex_ident by (try assumption; reflexivity).
+    rewrite lex_lp. rewrite A3 by (right; reflexivity). rewrite lex_comma.
+    rewrite B3 by (right; reflexivity). rewrite lex_rp.
+    unfold call2t. rewrite !ocons_oapp, !oapp_assoc. cbn [app]. rewrite <- !app_assoc. reflexivity.
+Qed.
+
+Lemma head_ok_app s t : head_ok s = true -> head_ok (s ++ t) = true.
+Proof. destruct s; [discriminate|]. intros H. exact H. Qed.
+
+Lemma brk_rest_app s t : s <> "" -> brk_rest s -> brk_rest (s ++ t).
+Proof. destruct s; [congruence|]. intros _ H. exact H. Qed.
+
+(* s1 op s2 *)
+Lemma lxp_binop cl1 s1 ts1 opstr tok (hc : ascii -> bool) cl2 s2 ts2 :
+  LXP cl1 s1 ts1 -> LXP cl2 s2 ts2 ->
+  opstr <> "" -> brk_rest opstr -> nb opstr = true ->
+  (forall c X, hc c = true -> lex_go LIdle (opstr ++ String c X) = ocons tok (lex_go LIdle (String c X))) ->
+  (exists c s2', s2 = String c s2' /\ hc c = true) ->
+  LXP cl2 (s1 ++ opstr ++ s2) (ts1 ++ tok :: ts2).
+Proof.
+  intros (A1 & A2 & A3) (B1 & B2 & B3) Hne Hbrk Hnb Hlex (c & s2' & -> & Hc).
+  split; [apply head_ok_app; exact A1|split].
+  - rewrite !nb_app, A2, Hnb, B2. reflexivity.
+  - intros rest Hr. rewrite !sapp_assoc.
+    rewrite A3 by (right; apply brk_rest_app; assumption).
+    cbn [append]. rewrite (Hlex _ _ Hc).
+    change (String c (s2' ++ rest)) with (String c s2' ++ rest). rewrite (B3 _ Hr).
+    rewrite !ocons_oapp, !oapp_assoc. rewrite <- app_assoc. reflexivity.
+Qed.
+
+Lemma lex_minus_step Y :
+  (is_C L = true -> hd_is "-" Y = false) -> lex_go LIdle (String "-" Y) = ocons TMinus (lex_go LIdle Y).
+Proof.
+  intros H. rewrite lex_idle. unfold idle_step.
+  change (is_blank "-") with false. change (is_alpha "-") with false.
+  change (is_digit "-" || ("-" =? ".")%char)%bool with false.
+  change ("-" =? "(")%char with false. change ("-" =? ")")%char with false. change ("-" =? ",")%char with false.
+  change ("-" =? "*")%char with false. change ("-" =? "/")%char with false. change ("-" =? ":")%char with false.
+  change ("-" =? "?")%char with false. change ("-" =? "+")%char with false. change ("-" =? "-")%char with true.
+  cbv iota. destruct Y as [|d Y']; [reflexivity|].
+  destruct (is_C L); [|reflexivity]. cbn in H. rewrite H; reflexivity.
+Qed.
+
+Lemma lex_plus_step Y :
+  hd_is "+" Y = false -> lex_go LIdle (String "+" Y) = ocons TPlus (lex_go LIdle Y).
+Proof.
+  intros H. rewrite lex_idle. unfold idle_step.
+  change (is_blank "+") with false. change (is_alpha "+") with false.
+  change (is_digit "+" || ("+" =? ".")%char)%bool with false.
+  change ("+" =? "(")%char with false. change ("+" =? ")")%char with false. change ("+" =? ",")%char with false.
+  change ("+" =? "*")%char with false. change ("+" =? "/")%char with false. change ("+" =? ":")%char with false.
+  change ("+" =? "?")%char with false. change ("+" =? "+")%char with true.
+  cbv iota. destruct Y as [|d Y']; [reflexivity|].
+  cbn in H. rewrite H, andb_false_r. reflexivity.
+Qed.
+
+Lemma lex_bang_step Y :
+  is_C L = true -> hd_is "=" Y = false -> lex_go LIdle (String "!" Y) = ocons TBang (lex_go LIdle Y).
+Proof.
+  intros HC H. rewrite lex_idle. unfold idle_step.
+  change (is_blank "!") with false. change (is_alpha "!") with false.
+  change (is_digit "!" || ("!" =? ".")%char)%bool with false.
+  change ("!" =? "(")%char with false. change ("!" =? ")")%char with false. change ("!" =? ",")%char with false.
+  change ("!" =? "*")%char with false. change ("!" =? "/")%char with false. change ("!" =? ":")%char with false.
+  change ("!" =? "?")%char with false. change ("!" =? "+")%char with false. change ("!" =? "-")%char with false.
+  change ("!" =? "<")%char with false. change ("!" =? ">")%char with false. change ("!" =? "=")%char with false.
+  change ("!" =? "!")%char with true.
+  cbv iota. rewrite HC. destruct Y as [|d Y']; [reflexivity|].
+  cbn in H. rewrite H. reflexivity.
+Qed.
+
+Lemma lxp_neg cl s ts :
+  LXP cl s ts -> (is_C L = true -> hd_is "-" s = false) -> LXP cl ("-" ++ s) (TMinus :: ts).
+Proof.
+  intros (A1 & A2 & A3) Hh. split; [reflexivity|split].
+  - rewrite nb_app, A2. reflexivity.
+  - intros rest Hr. cbn [append]. rewrite lex_minus_step.
+    + rewrite (A3 _ Hr). rewrite !ocons_oapp, !oapp_assoc. reflexivity.
+    + intros HC. destruct s; [discriminate|]. cbn. apply Hh. exact HC.
+Qed.
+
+Lemma head_ok_not_eq c s : head_ok (String c s) = true -> Ascii.eqb c "=" = false /\ Ascii.eqb c "+" = false.
+Proof.
+  cbn. destruct c as [b0 b1 b2 b3 b4 b5 b6 b7].
+  destruct b0, b1, b2, b3, b4, b5, b6, b7; cbn; intros H; try discriminate; split; reflexivity.
+Qed.
+
+Lemma lxp_not cl s ts : is_C L = true -> LXP cl s ts -> LXP cl ("!" ++ s) (TBang :: ts).
+Proof.
+  intros HC (A1 & A2 & A3). split; [reflexivity|split].
+  - rewrite nb_app, A2. reflexivity.
+  - intros rest Hr. cbn [append]. rewrite lex_bang_step; [|exact HC|].
+    + rewrite (A3 _ Hr). rewrite !ocons_oapp, !oapp_assoc. reflexivity.
+    + destruct s as [|c s']; [discriminate|]. cbn. apply (head_ok_not_eq _ _ A1).
+Qed.
+
+(* concrete operator texts; Y is what follows *)
+Ltac lexop := intros; cbn [append]; rewrite ?lex_blank; rewrite lex_idle; cbv -[GramDefs.lex_go is_C];
+              try match goal with H : is_C L = true |- _ => rewrite H end; rewrite ?lex_blank; try reflexivity.
+
+Lemma lex_star Y : lex_go LIdle ("*" ++ Y) = ocons TStar (lex_go LIdle Y).
+Proof. lexop. Qed.
+Lemma lex_slash Y : lex_go LIdle ("/" ++ Y) = ocons TSlash (lex_go LIdle Y).
+Proof. lexop. Qed.
+Lemma lex_colon Y : lex_go LIdle (":" ++ Y) = ocons TColon (lex_go LIdle Y).
+Proof. lexop. Qed.
+Lemma lex_quest Y : is_C L = true -> lex_go LIdle ("?" ++ Y) = ocons TQuest (lex_go LIdle Y).
+Proof. lexop. Qed.
+Lemma lex_eqeq Y : lex_go LIdle (" == " ++ Y) = ocons TEqEq (lex_go LIdle Y).
+Proof. lexop. Qed.
+Lemma lex_ne Y : lex_go LIdle (" != " ++ Y) = ocons TNe (lex_go LIdle Y).
+Proof. lexop. Qed.
+Lemma lex_lt Y : lex_go LIdle (" < " ++ Y) = ocons TLt (lex_go LIdle Y).
+Proof. lexop. Qed.
+Lemma lex_le Y : lex_go LIdle (" <= " ++ Y) = ocons TLe (lex_go LIdle Y).
+Proof. lexop. Qed.
+Lemma lex_gt Y : lex_go LIdle (" > " ++ Y) = ocons TGt (lex_go LIdle Y).
+Proof. lexop. Qed.
+Lemma lex_ge Y : lex_go LIdle (" >= " ++ Y) = ocons TGe (lex_go LIdle Y).
+Proof. lexop. Qed.
+Lemma lex_andand Y : is_C L = true -> lex_go LIdle (" && " ++ Y) = ocons TAndAnd (lex_go LIdle Y).
+Proof. lexop. Qed.
+Lemma lex_oror Y : is_C L = true -> lex_go LIdle (" || " ++ Y) = ocons TOrOr (lex_go LIdle Y).
+Proof. lexop. Qed.
+
+Lemma lex_if Y : lex_go LIdle (" if " ++ Y) = ocons TIf (lex_go LIdle Y).
+Proof.
+  change (" if " ++ Y) with (String " " ("if" ++ (String " " Y))). rewrite lex_blank.
+  rewrite lex_word by reflexivity. rewrite lex_blank. rewrite ocons_oapp. reflexivity.
+Qed.
+Lemma lex_else Y : lex_go LIdle (" else " ++ Y) = ocons TElse (lex_go LIdle Y).
+Proof.
+  change (" else " ++ Y) with (String " " ("else" ++ (String " " Y))). rewrite lex_blank.
+  rewrite lex_word by reflexivity. rewrite lex_blank. rewrite ocons_oapp. reflexivity.
+Qed.
+
+End LXP.
+
+(** ** the conditional templates (utilities.cpp: replace, first occurrence) *)
+
+Lemma rf_skip c tail v :
+  nb c = true -> replace_first (c ++ tail) "[IF_STATEMENT]" v = c ++ replace_first tail "[IF_STATEMENT]" v.
+Proof.
+  induction c as [|d c IH]; intros H; [reflexivity|].
+  unfold nb in H. cbn [all_chars] in H. apply andb_prop in H. destruct H as [Hd Hc].
+  cbn [append]. cbn [replace_first prefix_drop]. rewrite Ascii.eqb_sym. apply negb_true_iff in Hd. rewrite Hd.
+  rewrite (IH Hc). reflexivity.
+Qed.
+
+Lemma if_code_C c v :
+  nb c = true ->
+  replace_first (replace_first "([CONDITION])?[IF_STATEMENT]" "[CONDITION]" c) "[IF_STATEMENT]" v
+  = "(" ++ c ++ ")?" ++ v.
+Proof.
+  intros H.
+  change (replace_first "([CONDITION])?[IF_STATEMENT]" "[CONDITION]" c) with ("(" ++ (c ++ ")?[IF_STATEMENT]")).
+  cbn [append]. cbn [replace_first prefix_drop]. change (("[" =? "(")%char) with false. cbv iota.
+  rewrite rf_skip by exact H. cbn. rewrite sapp_nil_r. reflexivity.
+Qed.
+
+Lemma if_code_Py c v :
+  replace_first (replace_first "[IF_STATEMENT] if [CONDITION]" "[CONDITION]" c) "[IF_STATEMENT]" v
+  = v ++ " if " ++ c.
+Proof.
+  change (replace_first "[IF_STATEMENT] if [CONDITION]" "[CONDITION]" c) with ("[IF_STATEMENT] if " ++ (c ++ "")).
+  rewrite sapp_nil_r. reflexivity.
+Qed.
+
+Lemma else_code_C v : replace_first ":[ELSE_STATEMENT]" "[ELSE_STATEMENT]" v = ":" ++ v.
+Proof. cbn. rewrite sapp_nil_r. reflexivity. Qed.
+Lemma else_code_Py v : replace_first " else [ELSE_STATEMENT]" "[ELSE_STATEMENT]" v = " else " ++ v.
+Proof. cbn. rewrite sapp_nil_r. reflexivity. Qed.
+
+(** ** the generated text of a safe AST lexes to [gent] *)
+Section MainLex.
+Variable L : lang.
+Variable p : profile.
+Hypothesis HF : flags_ok L p.
+Hypothesis HS : strings_ok L p.
+
+Notation gent := (gent L p).
+Notation safe := (safe_b L p).
+Notation LXP := (LXP L).
+
+Lemma Splus : plus_string p = "+". Proof. apply HS. Qed.
+Lemma Sminus : minus_string p = "-". Proof. apply HS. Qed.
+Lemma Stimes : times_string p = "*". Proof. apply HS. Qed.
+Lemma Sdivide : divide_string p = "/". Proof. apply HS. Qed.
+Lemma Seq : eq_string p = (if is_C L then " == " else "eq_func"). Proof. apply HS. Qed.
+Lemma Sneq : neq_string p = (if is_C L then " != " else "neq_func"). Proof. apply HS. Qed.
+Lemma Slt : lt_string p = (if is_C L then " < " else "lt_func"). Proof. apply HS. Qed.
+Lemma Sleq : leq_string p = (if is_C L then " <= " else "leq_func"). Proof. apply HS. Qed.
+Lemma Sgt : gt_string p = (if is_C L then " > " else "gt_func"). Proof. apply HS. Qed.
+Lemma Sgeq : geq_string p = (if is_C L then " >= " else "geq_func"). Proof. apply HS. Qed.
+Lemma Sand : and_string p = (if is_C L then " && " else "and_func"). Proof. apply HS. Qed.
+Lemma Sor : or_string p = (if is_C L then " || " else "or_func"). Proof. apply HS. Qed.
+Lemma Snot : not_string p = (if is_C L then "!" else "not_func"). Proof. apply HS. Qed.
+Lemma Sif : conditional_operator_if_string p =
+            (if is_C L then "([CONDITION])?[IF_STATEMENT]" else "[IF_STATEMENT] if [CONDITION]").
+Proof. apply HS. Qed.
+Lemma Selse : conditional_operator_else_string p = (if is_C L then ":[ELSE_STATEMENT]" else " else [ELSE_STATEMENT]").
+Proof. apply HS. Qed.
+Lemma Vpow : var_ok (power_string p) = true. Proof. apply HS. Qed.
+Lemma Vsqrt : var_ok (square_root_string p) = true. Proof. apply HS. Qed.
+Lemma Vln : var_ok (natural_logarithm_string p) = true. Proof. apply HS. Qed.
+Lemma Vlog10 : var_ok (common_logarithm_string p) = true. Proof. apply HS. Qed.
+Lemma Vinf : var_ok (inf_string p) = true. Proof. apply HS. Qed.
+Lemma Vnan : var_ok (nan_string p) = true. Proof. apply HS. Qed.
+Lemma Ntrue : num_body_ok (true_string p) = true. Proof. apply HS. Qed.
+Lemma Nfalse : num_body_ok (false_string p) = true. Proof. apply HS. Qed.
+Lemma Ne : num_body_ok (e_string p) = true. Proof. apply HS. Qed.
+Lemma Npi : num_body_ok (pi_string p) = true. Proof. apply HS. Qed.
+Lemma Vf1 t f : fun1_name p t = Some f -> var_ok f = true. Proof. apply HS. Qed.
+Lemma Vf2 t f : fun2_name p t = Some f -> var_ok f = true. Proof. apply HS. Qed.
+
+Local Notation F1 := (F1 L p HF). Local Notation F2 := (F2 L p HF). Local Notation F3 := (F3 L p HF).
+Local Notation F4 := (F4 L p HF). Local Notation F5 := (F5 L p HF). Local Notation F6 := (F6 L p HF).
+Local Notation F7 := (F7 L p HF). Local Notation F8 := (F8 L p HF). Local Notation F9 := (F9 L p HF).
+Local Notation F10 := (F10 L p HF). Local Notation F11 := (F11 L p HF). Local Notation F12 := (F12 L p HF).
+Local Notation F13 := (F13 L p HF).
+Ltac fl := rewrite ?F1, ?F2, ?F3, ?F4, ?F5, ?F6, ?F7, ?F8, ?F9, ?F10, ?F11, ?F12, ?F13.
+Ltac fl_in H := rewrite ?F1, ?F2, ?F3, ?F4, ?F5, ?F6, ?F7, ?F8, ?F9, ?F10, ?F11, ?F12, ?F13 in H.
+
+Definition LG (a : ast) : Prop := safe a = true -> LXP false (gen p a) (gent a).
+
+(** kinds, on the text side *)
+Lemma gen_fun1 t v l r f : fun1_name p t = Some f -> gen p (Node t v l r) = f ++ "(" ++ gen p l ++ ")".
+Proof.
+  intros Hx. destruct t; cbn in Hx; try discriminate; fl_in Hx;
+    try (inv Hx; reflexivity).
+  destruct (is_C L) eqn:EC; [discriminate|]. inv Hx. cbn [gen]. fl. rewrite EC. reflexivity.
+Qed.
+
+Lemma gen_fun2 t v l r f :
+  fun2_name p t = Some f -> gen p (Node t v l r) = f ++ "(" ++ gen p l ++ ", " ++ gen p r ++ ")".
+Proof.
+  intros Hx. destruct t; cbn in Hx; try discriminate; fl_in Hx; cbn in Hx;
+    destruct (is_C L) eqn:EC; try discriminate; inv Hx; cbn [gen]; fl; rewrite ?EC; reflexivity.
+Qed.
+
+Definition opstr (t : ty) : string :=
+  match t with
+  | EQ => eq_string p | NEQ => neq_string p | LT => lt_string p | LEQ => leq_string p
+  | GT => gt_string p | GEQ => geq_string p | AND => and_string p | OR => or_string p
+  | PLUS => plus_string p | MINUS => minus_string p | TIMES => times_string p | DIVIDE => divide_string p
+  | _ => ""
+  end.
+Definition hc (t : ty) (c : ascii) : bool :=
+  match t with
+  | PLUS => negb (Ascii.eqb c "+")
+  | MINUS => negb (is_C L && Ascii.eqb c "-")
+  | _ => true
+  end.
+
+Lemma gen_infix t v l r tok op q :
+  infix_info p t = Some (tok, op, q) -> is_nil r = false ->
+  gen p (Node t v l r) =
+  wrap (paren_left p t l r) (gen p l) ++ opstr t ++ wrap (paren_right p t l r (gen p r)) (gen p r).
+Proof.
+  intros Hx Hr. destruct t; cbn in Hx; try discriminate; fl_in Hx; cbn in Hx;
+    destruct (is_C L) eqn:EC; try discriminate; inv Hx; cbn [gen opstr]; rewrite ?Hr; fl; rewrite ?EC;
+    reflexivity.
+Qed.
+
+Lemma opstr_ok t tok op q :
+  infix_info p t = Some (tok, op, q) ->
+  opstr t <> "" /\ brk_rest (opstr t) /\ nb (opstr t) = true /\
+  forall c X, hc t c = true -> lex_go L LIdle (opstr t ++ String c X) = ocons tok (lex_go L LIdle (String c X)).
+Proof.
+  intros Hx. destruct t; cbn in Hx; try discriminate; fl_in Hx; cbn in Hx;
+    destruct (is_C L) eqn:EC; try discriminate; inv Hx; cbn [opstr hc];
+    rewrite ?Seq, ?Sneq, ?Slt, ?Sleq, ?Sgt, ?Sgeq, ?Sand, ?Sor, ?Splus, ?Sminus, ?Stimes, ?Sdivide, ?EC;
+    (split; [discriminate|split; [reflexivity|split; [reflexivity|]]]); intros c X Hc;
+    first [ apply lex_eqeq | apply lex_ne | apply lex_lt | apply lex_le | apply lex_gt | apply lex_ge
+          | apply lex_andand; exact EC | apply lex_oror; exact EC | apply lex_star | apply lex_slash
+          | (apply lex_plus_step; cbn; apply negb_true_iff in Hc; exact Hc)
+          | (apply lex_minus_step; intros HC; cbn; apply negb_true_iff in Hc; rewrite HC in Hc; exact Hc) ].
+Qed.
+
+End MainLex.
